@@ -83,6 +83,7 @@ ADD = {
  "C13": " Instants at the ends of the representable range (year 1, the Unix epoch, 9999), RelayState pairs no encoder writes (raw ';', dangling '%') and requests without Issuer element that name a registered requester elsewhere are included.",
  "C14": " A neighbouring provider and service provider in the same process are configured with the most generous limits the configuration structs of the tree offer (integer fields named like a limit, found by reflection). Requests that are megabytes long themselves (padding compressing about 20:1, forms only) are included; every request runs under a cancellable context as under net/http.",
  "C15": " After dozens of requests of other sessions have failed at one storage call (four at a time), healthy sessions must still be answered with Success; half of the rounds use a time layout without fractions of a second.",
+ "C16": " A third of the end-to-end requests also name the location of an entry registered with the binding they ask for.",
  "C17": " The media type the page is sent with has to be text/html; a page whose first write stalls while another page is produced on the same provider, and 64 KiB runs of characters that are written as several, are included.",
  "C11": " Insecure mode and a run-time change of the configured signing requirement (advertisement and enforcement must still agree) are included.",
  "C18": " Eight logins, metadata requests and attribute queries are built side by side on one provider (each Success decodes to its own user's values); attribute queries failing with unusual error texts must not produce a body announced as XML that is not well-formed; word-like codec inputs.",
